@@ -1201,7 +1201,9 @@ caption_command(vbi_decoder *vbi, struct caption *cc,
 			if (!ch->mode)
 				return;
 
-			for (i = ch->col; i <= COLUMNS - 1; i++)
+			/* From column 1 the row becomes empty, including the
+			   solid space in front of the first character. */
+			for (i = (ch->col > 1) ? ch->col : 0; i <= COLUMNS - 1; i++)
 				ch->line[i] = cc->transp_space[chan >> 2];
 
 			word_break(cc, ch, 0);
